@@ -75,6 +75,8 @@ pub enum OperatorAction {
     Remove { path: String },
     Mkdir { path: String },
     Signal,
+    /// Harness observation: copy the configuration behind the lock.
+    Snapshot,
 }
 
 #[derive(Serialize, Deserialize, Clone, Debug)]
@@ -294,6 +296,12 @@ async fn run_message(index: usize, m: MsgPlan, server: SocketAddr, label_prefix:
 /// configuration in force (the zones behind the lock) to build `versions`.
 #[allow(clippy::too_many_lines)]
 pub fn run(plan: &ServerPlan, exec: &Exec, want_log: bool) -> ServerObs {
+    run_keep(plan, exec, want_log, false)
+}
+
+/// Like `run`; with `keep_root` the scratch directory is left in place (its
+/// path is in `ServerObs::root`) and the caller removes it.
+pub fn run_keep(plan: &ServerPlan, exec: &Exec, want_log: bool, keep_root: bool) -> ServerObs {
     let root = scratch_root();
     materialise(&root, &plan.dirs, &plan.files);
     let rt = make_runtime(exec.seed());
@@ -360,6 +368,8 @@ pub fn run(plan: &ServerPlan, exec: &Exec, want_log: bool) -> ServerObs {
             // operator
             let steps = plan.operator.clone();
             let root3 = root2.clone();
+            let zl = server.zones_lock.clone();
+            let v2 = versions.clone();
             let op = tokio::spawn(async move {
                 let mut now = 0u64;
                 for s in steps {
@@ -380,6 +390,10 @@ pub fn run(plan: &ServerPlan, exec: &Exec, want_log: bool) -> ServerObs {
                             let _ = std::fs::create_dir_all(root3.join(path));
                         }
                         OperatorAction::Signal => simseam::signal::raise_sigusr1(),
+                        OperatorAction::Snapshot => {
+                            let z = zl.read().await.clone();
+                            v2.lock().unwrap().push((simseam::clock::elapsed_ms(), z));
+                        }
                     }
                 }
             });
@@ -445,6 +459,8 @@ pub fn run(plan: &ServerPlan, exec: &Exec, want_log: bool) -> ServerObs {
         out
     });
     drop(rt);
-    let _ = std::fs::remove_dir_all(&root);
+    if !keep_root {
+        let _ = std::fs::remove_dir_all(&root);
+    }
     obs
 }
